@@ -78,6 +78,9 @@ var c07Bodies = [][2]string{
 	{`{{ try }}{{ y := 1 }}<{{ . }}>{{ end }}`, "D"},
 	{`{{ try }}{{ fail() }}{{ catch y }}<{{ . }}>{{ end }}`, "D"},
 	{`{{ includeIfExists("/inc.jet", "ctx") }}`, "ctx"},
+	{`{{ try }}{{ range one }}{{ y := 1 }}{{ fail() }}{{ end }}{{ catch }}<{{ . }}>{{ end }}`, "D"},
+	{`{{ try }}{{ range one }}{{ fail() }}{{ end }}{{ catch y }}{{ end }}<{{ . }}>`, "D"},
+	{`{{ try }}{{ include "/failctx.jet" "ctx" }}{{ catch }}<{{ . }}>{{ end }}`, "D"},
 	{`{{ exec("/inc.jet", "ctx") }}`, ""},
 }
 
@@ -94,6 +97,7 @@ func H_C07_bodies() {
 		"/m.jet", `{{ import "/lib.jet" }}{{ z := "Z" }}`+c07Bodies[b][0]+`|{{ isset(y) }}|{{ z }}|{{ . }}`,
 		"/lib.jet", `{{ block lib(y=0) }}<{{ . }}>{{ end }}{{ block wrap() }}{{ yield content }}{{ end }}`,
 		"/inc.jet", `{{ y := 1 }}<{{ . }}>`,
+		"/failctx.jet", `{{ y := 1 }}{{ fail() }}`,
 	)
 	vars := make(VarMap)
 	vars.Set("one", []string{"e"})
